@@ -120,8 +120,6 @@ def ensure_facts(config="default", repo=None, log=sys.stderr):
         t0 = time.time()
         build_driver(log)
         tgt = os.environ.get("ESSB_TARGET_DIR") or os.path.join(CACHE, "target-" + config)
-        if repo != REPO:
-            tgt = os.path.join(repo, "..", "essb-target-" + config)
         # cargo's freshness cache would skip the wrapper for unchanged members
         for fp in glob.glob(os.path.join(tgt, "debug", ".fingerprint", "essential-*")):
             shutil.rmtree(fp, ignore_errors=True)
